@@ -116,6 +116,24 @@ func c02build() {
 				c02matrix = append(c02matrix, c02case{Name: kind + "/read-after-eof/" + name + "/probed", Subject: "mem", Init: init, Steps: steps})
 			}
 		}
+		// files and single transfers well beyond any internal chunk size (64 KiB, 128 KiB): one call, one complete transfer
+		big := make([]byte, 200<<10)
+		for i := range big {
+			big[i] = byte('a' + (i/7+i%5)%26)
+		}
+		bigData := strings.Repeat("W", 180<<10)
+		for _, subj := range []string{"mem", "kvplain"} {
+			for _, kind := range []string{"ro", "rw", "rw+app"} {
+				reads := []fsx.Step{c02open(0, kind), {K: "H.ReadAt", Slot: 0, N: 150000, Off: 0}, {K: "H.ReadAt", Slot: 0, N: 100000, Off: 150000}, {K: "H.ReadAt", Slot: 0, N: 65537, Off: 65535},
+					{K: "H.Read", Slot: 0, N: 70000}, {K: "H.Read", Slot: 0, N: 131073}, {K: "H.Read", Slot: 0, N: 100000}, {K: "H.Stat", Slot: 0}}
+				c02matrix = append(c02matrix, c02case{Name: kind + "/big/reads", Subject: subj, Init: string(big), Steps: reads, NoProbe: true})
+				c02matrix = append(c02matrix, c02case{Name: kind + "/big/reads/probed", Subject: subj, Init: string(big), Steps: reads})
+				if kind != "ro" {
+					writes := []fsx.Step{c02open(0, kind), {K: "H.Write", Slot: 0, Data: bigData}, {K: "H.WriteAt", Slot: 0, Data: bigData[:70000], Off: 1000}, {K: "H.Seek", Slot: 0, Off: 500, Whence: io.SeekStart}, {K: "H.Read", Slot: 0, N: 190000}, {K: "H.Truncate", Slot: 0, Off: 300 << 10}, {K: "H.ReadAt", Slot: 0, N: 120000, Off: 190 << 10}, {K: "H.Stat", Slot: 0}}
+					c02matrix = append(c02matrix, c02case{Name: kind + "/big/writes", Subject: subj, Init: string(big), Steps: writes, NoProbe: true})
+				}
+			}
+		}
 		for _, kind := range c02kindNames {
 			for _, op := range c02ops(0, len(init)) {
 				// (a) fresh handle moved to offset 3, (b) the same after another handle grew the file, (c) after another handle shrank it
